@@ -45,7 +45,7 @@ enum {
 	N_F_RECV_SHORT, N_F_RECV_EAGAIN, N_F_RECV_EINTR, N_F_RECV_ERR, N_F_SEND_SHORT, N_F_SEND_EAGAIN, N_F_SEND_EINTR,
 	N_F_SEND_ERR, N_F_POLL_EINTR, N_F_POLL_SPUR, N_F_ACCEPT_SOFT, N_F_ALLOC, N_POLLS, N_BLOCKS, N_RUNS, N_REG_FAIL,
 	N_RW_BOTH, N_OVERLAP, N_MANY, N_BINDFAIL, N_FREE_IN_CB, N_NBR_CONSUME_WAITING, N_NBR_HUGE_REFUSED, N_TLS, N_BULK, N_TLS_EARLIER, N_F_BARE_ERR,
-	N_F_BLOCKING_CONNECT
+	N_F_BLOCKING_CONNECT, N_F_GSO, N_F_CLOSE, N_NBW_NOCB
 };
 const char * const engine_counters[] = {
 	"read_requests", "read_completed", "read_eof", "read_error", "write_requests", "write_completed", "write_error",
@@ -61,7 +61,8 @@ const char * const engine_counters[] = {
 	"fault_accept_soft_error", "fault_alloc_failed", "polls", "poll_blocked", "events_run_calls", "probe_request_failed_alloc",
 	"probe_read_and_write_outstanding", "probe_overlapping_request_refused", "probe_more_than_16_requests_outstanding", "fault_bind_failed", "probe_object_freed_inside_its_callback",
 	"probe_reader_consume_while_waiting", "probe_reader_unbufferable_wait_refused", "probe_netbuf_over_tls_stub", "probe_write_over_2GiB",
-	"probe_plain_connection_after_tls_was_used", "fault_poll_reported_error_alone", "note_connect_on_blocking_descriptor", NULL
+	"probe_plain_connection_after_tls_was_used", "fault_poll_reported_error_alone", "note_connect_on_blocking_descriptor",
+	"fault_getsockopt_failed", "fault_close_failed", "probe_writer_without_failure_callback", NULL
 };
 
 #define AF_SINCE(before) (simalloc_failed != (before))
@@ -109,6 +110,7 @@ struct nbw {
 	uint8_t * truth;	/* concatenation of all successful writes */
 	size_t tlen, tcap;
 	int failed_cb;		/* fail callback invocations */
+	int nocb;		/* created without a failure callback */
 	int dead;		/* writer unusable after an allocation failure (only freed) */
 	int wrote_after_fail;
 	int send_error_seen;	/* the transport has failed under this writer */
@@ -118,6 +120,8 @@ struct nbw {
 	int forked;
 	uint64_t wctr;
 };
+/* the writer has seen its transport fail: told through the failure callback, or (without one) observed at the send */
+#define WFAILED(w) ((w)->failed_cb > 0 || ((w)->nocb && (w)->send_error_seen))
 struct sockst {
 	struct vsock * vs;
 	int kind;		/* 0 stream, 1 listener */
@@ -635,6 +639,7 @@ static struct {
 	struct vsock * vs[MAXADDR];
 	int fdnum[MAXADDR];
 	int af0;
+	uint64_t gso0;		/* failed getsockopt calls before this request */
 	int base_port;
 } CN;
 static int nconn;
@@ -646,8 +651,8 @@ conn_check_abandon(const char * why)
 
 	if (c < 0 || CN.concluded[c])
 		return;
-	if (AF_SINCE(CN.af0)) {
-		/* a fatal (out-of-memory) error inside the request: it may give up at once */
+	if (AF_SINCE(CN.af0) || vk_stats.getsockopt_failed > CN.gso0) {
+		/* a fatal error inside the request (out of memory, a failing system call): it may give up at once */
 		CN.concluded[c] = 1;
 		return;
 	}
@@ -802,7 +807,7 @@ conn_callback(void * cookie, int s)
 		close(s);
 	} else if (s == -1) {
 		R->cnt[N_CONN_FAIL]++;
-		if (!AF_SINCE(CN.af0)) {
+		if (!AF_SINCE(CN.af0) && vk_stats.getsockopt_failed == CN.gso0) {
 			if (CN.cur >= 0)
 				conn_check_abandon("callback with -1");
 			if (CN.next_j < CN.naddr)
@@ -861,6 +866,7 @@ issue_connect(const struct pline * l)
 	CN.cur = -1;
 	CN.active = 1;
 	CN.af0 = simalloc_failed;
+	CN.gso0 = vk_stats.getsockopt_failed;
 	f0 = simalloc_failed;
 	R->cnt[N_CONN_REQ]++;
 	TR(0x15, CN.naddr, CN.timeo_us, "network_connect(%d addresses, timeout %lu us%s)", CN.naddr, (unsigned long)CN.timeo_us, CN.sa_b ? ", bind" : "");
@@ -1165,7 +1171,7 @@ nbw_check_prefix(struct sockst * S, int final)
 		sim_viol("C07.wr.prefix", "longer", "the peer received %zu bytes but only %zu were written", S->vs->txlen, W->tlen);
 	if (memcmp(S->vs->tx, W->truth, S->vs->txlen) != 0)
 		sim_viol("C07.wr.prefix", "mismatch", "the bytes the peer received are not a prefix of the concatenation of all writes");
-	if (final && W->failed_cb == 0 && !W->dead && simalloc_failed == 0 && S->vs->txlen != W->tlen)
+	if (final && !WFAILED(W) && !W->dead && simalloc_failed == 0 && S->vs->txlen != W->tlen)
 		sim_viol("C07.wr.complete", "incomplete", "transport never failed but the peer received %zu of %zu bytes", S->vs->txlen, W->tlen);
 }
 
@@ -1244,7 +1250,7 @@ nbw_write(struct sockst * S, size_t n, int use_reserve, size_t m)
 		free(tmp);
 		return;
 	}
-	if (W->failed_cb > 0) {
+	if (WFAILED(W)) {
 		/* discarded silently */
 		W->wrote_after_fail = 1;
 	} else {
@@ -1270,7 +1276,7 @@ outstanding(void)
 	for (i = 0; i < nss; i++) {
 		if (ss[i].rd != NULL || ss[i].wr != NULL || ss[i].acc_live || ss[i].nbr.waiting)
 			n++;
-		if (ss[i].nbw.W != NULL && !ss[i].nbw.dead && ss[i].nbw.failed_cb == 0 && ss[i].vs->txlen < ss[i].nbw.tlen)
+		if (ss[i].nbw.W != NULL && !ss[i].nbw.dead && !WFAILED(&ss[i].nbw) && ss[i].vs->txlen < ss[i].nbw.tlen)
 			n++;
 	}
 	if (CN.active && !CN.done && !CN.cancelled)
@@ -1362,7 +1368,7 @@ release_all(void)
 			S->nbr.waiting = 0;
 		}
 		if (S->nbw.W != NULL) {
-			if (S->vs->txlen < S->nbw.tlen && S->nbw.failed_cb == 0)
+			if (S->vs->txlen < S->nbw.tlen && !WFAILED(&S->nbw))
 				R->cnt[N_NBW_FREE_INFLIGHT]++;
 			LIB_ENTER();
 			netbuf_write_free(S->nbw.W);
@@ -1425,7 +1431,7 @@ finish(void)
 					sim_viol("C06.live", "accept", "accept request did not complete within %d loop iterations although a client is waiting", lim);
 				if (ss[i].nbr.waiting)
 					sim_viol("C07.rd.live", "wait", "wait for %zu bytes did not complete within %d loop iterations after the peer had sent everything and closed", ss[i].nbr.k, lim);
-				if (ss[i].nbw.W != NULL && !ss[i].nbw.dead && ss[i].nbw.failed_cb == 0 && ss[i].vs->txlen < ss[i].nbw.tlen)
+				if (ss[i].nbw.W != NULL && !ss[i].nbw.dead && !WFAILED(&ss[i].nbw) && ss[i].vs->txlen < ss[i].nbw.tlen)
 					sim_viol("C07.wr.complete", "stalled", "writer delivered %zu of %zu bytes within %d loop iterations although the transport never failed", ss[i].vs->txlen, ss[i].nbw.tlen, lim);
 			}
 			if (CN.active && !CN.done && !CN.cancelled)
@@ -1435,7 +1441,7 @@ finish(void)
 	for (i = 0; i < nss; i++)
 		if (ss[i].nbw.W != NULL) {
 			nbw_check_prefix(&ss[i], 1);
-			if (ss[i].nbw.send_error_seen && ss[i].nbw.failed_cb == 0 && simalloc_failed == 0)
+			if (ss[i].nbw.send_error_seen && !WFAILED(&ss[i].nbw) && simalloc_failed == 0 && !ss[i].nbw.nocb)
 				sim_viol("C07.wr.fail-once", "never", "a send failed hard under the writer but its failure callback never fired");
 		}
 	/* exactly-once accounting */
@@ -1569,6 +1575,9 @@ engine_gen(struct plan * P, uint64_t seed, struct prng * g)
 	}
 	plan_add(P, "knob", "fd_base", 1, (int64_t)(prng_chance(g, 20) ? 3 + prng_n(g, 200) : prng_chance(g, 15) ? 0 : 3));
 	plan_add(P, "knob", "bare_err", 1, (int64_t)prng_chance(g, 25));
+	/* failing system calls: the n-th getsockopt(SO_ERROR) / close of the run */
+	plan_add(P, "knob", "gso_fail", 1, (int64_t)(prng_chance(g, 10) ? (int64_t)prng_n(g, 4) : (int64_t)-1));
+	plan_add(P, "knob", "close_fail", 1, (int64_t)(prng_chance(g, 12) ? (int64_t)prng_n(g, 6) : (int64_t)-1));
 	plan_add(P, "knob", "tick_ns", 1, prng_chance(g, 25) ? (int64_t)prng_n(g, 3000) : (int64_t)0);
 	plan_add(P, "knob", "fill", 1, (int64_t)(prng_chance(g, 50) ? 256 : (prng_chance(g, 50) ? 0xff : 0)));
 
@@ -1764,7 +1773,7 @@ engine_gen(struct plan * P, uint64_t seed, struct prng * g)
 		gen_stream_script(g, l, 0, faulty);
 		l = plan_add(P, "tape", "0", 1, (int64_t)1);
 		gen_tape(g, l, (int)prng_n(g, 40), pe, pi, ps, perr);
-		plan_add(P, "step", "nbw_init", 2, (int64_t)0, (int64_t)prng_chance(g, 35));
+		plan_add(P, "step", "nbw_init", 3, (int64_t)0, (int64_t)prng_chance(g, 35), (int64_t)prng_chance(g, 12));
 		if (prng_chance(g, 25)) {
 			/* several buffers queued, the transport fails, the application keeps using the writer */
 			plan_add(P, "step", "nbw_write", 2, (int64_t)0, (int64_t)(4097 + prng_n(g, 9000)));
@@ -1890,6 +1899,8 @@ engine_run(const struct plan * P)
 	tls_stub_oracle = "C07.tls-contract";
 	vk_block_oracle = "C06.conn.blocking";
 	vk_bare_err = (int)plan_knob(P, "bare_err", 0) == 1;
+	vk_getsockopt_fail_at = (int)plan_knob(P, "gso_fail", -1);
+	vk_close_fail_at = (int)plan_knob(P, "close_fail", -1);
 	snprintf(R->crash_prop, sizeof(R->crash_prop), "%s", (plan_knob(P, "scenario", 0) >= 5 && plan_knob(P, "scenario", 0) <= 9) ? "C07" : "C06");
 	vk_fd_base = (int)plan_knob(P, "fd_base", 3);
 	if (vk_fd_base < 0)
@@ -2022,12 +2033,20 @@ engine_run(const struct plan * P)
 			if (ss[si].kind == 0 && ss[si].nbw.W == NULL && ss[si].wr == NULL && ss[si].nbw.tlen == 0) {
 				int f0 = simalloc_failed;
 
+				int (* fcb)(void *) = arg(l, 2, 1) ? NULL : nbw_fail;	/* an application may not want to hear about failures */
+
 				ss[si].vs->send_err_seen = 0;
+				ss[si].nbw.nocb = (fcb == NULL);
+				if (fcb == NULL)
+					R->cnt[N_NBW_NOCB]++;
 				LIB_ENTER();
 				if (use_tls)
-					ss[si].nbw.W = sock_tls(&ss[si]) ? netbuf_ssl_write_init(ss[si].tls, nbw_fail, &ss[si]) : NULL;
+					ss[si].nbw.W = sock_tls(&ss[si]) ? netbuf_ssl_write_init(ss[si].tls, fcb, &ss[si]) : NULL;
 				else
-					ss[si].nbw.W = netbuf_write_init(ss[si].vs->fd, nbw_fail, &ss[si]);
+					ss[si].nbw.W = netbuf_write_init(ss[si].vs->fd, fcb, &ss[si]);
+				/* freeing nothing is allowed */
+				netbuf_write_free(NULL);
+				netbuf_read_free(NULL);
 				LIB_LEAVE();
 				ss[si].nbw.free_in_failcb = (int)arg(l, 1, 1);
 				if (ss[si].nbw.W == NULL && !AF_SINCE(f0))
@@ -2045,7 +2064,7 @@ engine_run(const struct plan * P)
 		} else if (!strcmp(l->name, "nbw_free")) {
 			if (ss[si].nbw.W != NULL) {
 				nbw_check_prefix(&ss[si], 0);
-				if (ss[si].vs->txlen < ss[si].nbw.tlen && ss[si].nbw.failed_cb == 0)
+				if (ss[si].vs->txlen < ss[si].nbw.tlen && !WFAILED(&ss[si].nbw))
 					R->cnt[N_NBW_FREE_INFLIGHT]++;
 				LIB_ENTER();
 				netbuf_write_free(ss[si].nbw.W);
@@ -2073,6 +2092,8 @@ engine_run(const struct plan * P)
 	R->cnt[N_F_POLL_SPUR] = vk_stats.poll_spurious;
 	R->cnt[N_F_BARE_ERR] = vk_stats.bare_err;
 	R->cnt[N_F_BLOCKING_CONNECT] = vk_stats.connect_blocking;
+	R->cnt[N_F_GSO] = vk_stats.getsockopt_failed;
+	R->cnt[N_F_CLOSE] = vk_stats.close_failed;
 	R->cnt[N_F_ACCEPT_SOFT] = vk_stats.accept_soft;
 	R->cnt[N_F_ALLOC] = (uint64_t)simalloc_failed;
 	R->cnt[N_POLLS] = vk_stats.polls;
